@@ -96,6 +96,8 @@ def make_alg(cfg: dict):
         kw['wrapper'] = _identity_wrapper
     elif cfg.get('wrapper') == 'wraps':
         kw['wrapper'] = _wraps_wrapper
+    elif cfg.get('wrapper') == 'closure':
+        kw['wrapper'] = _closure_wrapper
     elif str(cfg.get('wrapper', '')).startswith('flaky'):
         kw['wrapper'] = FlakyWrapper(int(str(cfg['wrapper'])[5:] or 1))
     elif cfg.get('wrapper') == 'reentrant':
@@ -157,6 +159,13 @@ class ReentrantWrapper:
 
 def _identity_wrapper(f):
     return f
+
+
+def _closure_wrapper(f):
+    """semantics-preserving pass-through that does NOT copy __name__ (a plain closure)."""
+    def inner(*a, **k):
+        return f(*a, **k)
+    return inner
 
 
 def _wraps_wrapper(f):
